@@ -37,6 +37,25 @@ def score_case(rnd, rule, n=None):
     if rnd.random() < gen.MAGNIFY_P:
         spec = gen.magnify(rnd, spec)
         return {"cfg": cfg, "profile": spec, "tag": "magnified-score"}
+    if rnd.random() < gen.DRESS_P:
+        # the same scores in an unusual but valid shape: rankings next to the scores (score rules ignore them; ballots that share
+        # a ranking and the scored candidates but not the score VALUES are different ballots), ids / voter sets, zero-weight
+        # copies that respect every limit
+        cs = spec["cands"]
+        bl = [dict(b) for b in spec["ballots"]]
+        shared = [[c] for c in rnd.sample(cs, rnd.randint(1, len(cs)))]
+        for i, b in enumerate(bl):
+            if b.get("s") and rnd.random() < 0.7:
+                b["r"] = shared if rnd.random() < 0.6 else [[c] for c in rnd.sample(cs, rnd.randint(1, len(cs)))]
+            if rnd.random() < 0.5:
+                b["id"] = "voter-%d" % i
+            if rnd.random() < 0.3:
+                b["vs"] = ["v%d" % i]
+        if bl and rnd.random() < 0.5:
+            z = dict(rnd.choice(bl))
+            z["w"] = "0"
+            bl.insert(rnd.randrange(len(bl) + 1), z)
+        return {"cfg": cfg, "profile": canon.spec_profile(cs, bl), "tag": "score+dressed"}
     return {"cfg": cfg, "profile": spec, "tag": "score"}
 
 
